@@ -15,7 +15,7 @@ RULE = ("seeded toggle-heavy histories (10-60 ops, no source changes): q.set_err
         "derivative reads vs the model (FB bound) and across the two executions; error_method "
         "reads exactly. Non-trivial = a derivative read on a formula with an intermediate node; "
         "distinct by hash")
-ASSUMPTIONS = ["Monte Carlo reads compared by identity pattern only"]
+ASSUMPTIONS = ["Monte Carlo reads are compared by identity pattern and with mean/std of the kept simulation (mc.samples()), not with population moments (that is C02)"]
 TRUSTED = ["translator check of operand-value semantics (operations.py _CentralValue); numpy RNG"]
 LEVEL_TEXT = ("Theorems for ALL histories of method switches / reads / Monte Carlo settings: the "
               "effective method is own selection else global; every derivative answer is a "
